@@ -25,4 +25,17 @@ Proof.
   eapply bsE_call_void; [reflexivity|evsd; reflexivity|reflexivity|evsd; exact DA|evsd; reflexivity].
 Qed.
 
+(* sbdf_str_destroy(NULL): nothing happens *)
+Lemma str_destroy_null h c : as_ptr c = VNull ->
+  bsE prog_env (fbody prog_sbdf_str_destroy) (fr [("str"%string, as_ptr c)] bv k sx h m o) (ONormal (fr [("str"%string, as_ptr c)] bv k sx h m o)).
+Proof.
+  intros ->. cbn [fbody prog_sbdf_str_destroy]. unfold fr.
+  assert (DA : bsE prog_env (fbody prog_sbdf_dispose_array)
+     {| vars := [("array"%string, VNull); (budget_var, bv); (fail_var, VInt k); (strm_var, VBytes sx); (cells_var, VHeap h)]; inb := m; outb := o |}
+     (ONormal {| vars := [("array"%string, VNull); (budget_var, bv); (fail_var, VInt k); (strm_var, VBytes sx); (cells_var, VHeap h)]; inb := m; outb := o |})).
+  { cbn [fbody prog_sbdf_dispose_array]. eapply bsE_if; [evsd; reflexivity|reflexivity|apply bsE_skip]. }
+  eapply bsE_call_void; [reflexivity|evsd; reflexivity|reflexivity|evsd; exact DA|evsd; reflexivity].
+Qed.
+
+
 End StrDestroy.
